@@ -409,6 +409,8 @@ def _parse_expected_lmp(text):
 
 
 def replay(data):
+    if data.get("kind") == "live":
+        return replay_live(data)
     if data.get("kind") == "trr":
         from checks import c13_trr
 
@@ -461,6 +463,97 @@ def alphabet(ctx):
     return trajs
 
 
+def live_sequences(ctx, kind, text, expected, ends, workdir, meta, quick):
+    """Conformance of the closure's abstraction 'reader state = position': ONE live ReadAndProcessOnTheFly
+    object, as in the engines, polled at c1, at c2 > c1, at c2 again (no growth), and twice at the full
+    size.  c1: every byte; c2: every line end, the byte before and the byte after it (the quick tier takes
+    every third c1).  Oracle: every poll returns only complete, value-exact frames; at the end every frame
+    has been delivered exactly once, in order."""
+    from infretis.classes.engines import engineparts as ep
+
+    data = text.encode()
+    total = len(data)
+    path = os.path.join(workdir, f"live-{os.getpid()}.{kind}")
+    func = ep.xyz_reader if kind == "xyz" else ep.lammpstrj_reader
+    marks = sorted({m for i, ch in enumerate(text) if ch == "\n" for m in (i, i + 1, i + 2) if 0 < m <= total})
+    n = 0
+    done = set()
+    for c1 in range(1, total, 3 if quick else 1):
+        for c2 in marks:
+            if c2 <= c1:
+                continue
+            with open(path, "wb") as f:
+                f.write(data[:c1])
+            rd = ep.ReadAndProcessOnTheFly(path, func)
+            got = 0
+            bad = None
+            seq = (c1, c2, c2, total, total)
+            vis = c1
+            for c in seq:
+                if c != vis:
+                    with open(path, "ab") as f:
+                        f.write(data[vis:c])
+                    vis = c
+                n += 1
+                try:
+                    out = rd.read_and_process_content()
+                except Exception as e:  # noqa: BLE001
+                    bad = ("raised", f"{type(e).__name__}: {e}")
+                    break
+                if kind == "xyz":
+                    frames = [np.array(a, dtype=np.float64) for a in out]
+                else:
+                    frames = [(np.array(a), np.array(b)) for a, b in zip(*out)]
+                b = check_step(kind, text, expected, ends, got, frames, None, c)
+                if b:
+                    bad = b[0]
+                    break
+                got += len(frames)
+            if bad is None and got != len(expected):
+                bad = ("missing-frame", f"{got} of {len(expected)} frames delivered after the file was complete and polled twice")
+            if bad is not None:
+                sig = f"{kind}_reader:live:{bad[0]}"
+                if sig not in done:
+                    done.add(sig)
+                    ctx.violation(sig, f"{meta}: one reader object polled at {list(seq)} visible bytes: {bad[1]}",
+                                  dict(kind="live", rkind=kind, text=text, seq=list(seq), meta=meta))
+    return n
+
+
+def replay_live(data):
+    from infretis.classes.engines import engineparts as ep
+
+    kind, text, seq = data["rkind"], data["text"], data["seq"]
+    expected, ends = _parse_expected_xyz(text if text.endswith("\n") else text + "\n") if kind == "xyz" else _parse_expected_lmp(text)
+    wd = scratch.mkdtemp("c13l")
+    try:
+        raw = text.encode()
+        path = os.path.join(wd, f"live.{kind}")
+        with open(path, "wb") as f:
+            f.write(raw[: seq[0]])
+        rd = ep.ReadAndProcessOnTheFly(path, ep.xyz_reader if kind == "xyz" else ep.lammpstrj_reader)
+        vis, got = seq[0], 0
+        for c in seq:
+            if c != vis:
+                with open(path, "ab") as f:
+                    f.write(raw[vis:c])
+                vis = c
+            try:
+                out = rd.read_and_process_content()
+            except Exception as e:  # noqa: BLE001
+                return [(f"{kind}_reader:live:raised", f"{type(e).__name__}: {e}")]
+            frames = [np.array(a, dtype=np.float64) for a in out] if kind == "xyz" else [(np.array(a), np.array(b)) for a, b in zip(*out)]
+            b = check_step(kind, text, expected, ends, got, frames, None, c)
+            if b:
+                return [(f"{kind}_reader:live:{b[0][0]}", b[0][1])]
+            got += len(frames)
+        if got != len(expected):
+            return [(f"{kind}_reader:live:missing-frame", f"{got} of {len(expected)} frames delivered")]
+        return []
+    finally:
+        scratch.rmtree(wd)
+
+
 def _work(args):
     from vf.runner import Ctx
 
@@ -475,6 +568,9 @@ def _work(args):
             pf, pe = _parse_expected_lmp(text)
         assert len(pf) == len(frames), (meta, len(pf), len(frames))
         st = explore_traj(sub, kind, text, frames, ends, wd, meta)
+        st["live_polls"] = 0
+        if len(frames) >= 2 and len(text) < 1500 and (tier != "quick" or idx % 2 == 0):
+            st["live_polls"] = live_sequences(sub, kind, text, frames, ends, wd, meta, tier == "quick")
     finally:
         scratch.rmtree(wd)
     return idx, meta, len(text), st, sub.violations
@@ -489,11 +585,12 @@ def run(ctx):
     jobs = [(i, t, ctx.tier) for i, t in enumerate(trajs)]
     with mp.get_context("fork").Pool(min(16, os.cpu_count() or 1)) as pool:
         results = pool.map(_work, jobs, chunksize=1)
-    states = transitions = calls = 0
+    states = transitions = calls = live = 0
     for idx, meta, size, st, viols in sorted(results, key=lambda r: r[1]):
         states += st["states"]
         transitions += st["transitions"]
-        calls += st["calls"]
+        calls += st["calls"] + st.get("live_polls", 0)
+        live += st.get("live_polls", 0)
         ctx.distinct((meta, st["states"], st["outcomes"]))
         if len(ctx.samples) < 4:
             ctx.sample(dict(trajectory=meta, bytes=size, nodes=st["states"],
@@ -504,6 +601,7 @@ def run(ctx):
     ctx.set("transitions", transitions)
     ctx.set("evaluations", calls)
     ctx.set("trajectories", len(trajs))
+    ctx.set("live_reader_polls", live)
     ctx.set("traces_validated_against_impl", transitions)
     ctx.set("rule", "node = (reader position, frames delivered); edge = reader called with c' "
                     "visible bytes for every c' >= the smallest length at which the node is reachable; "
@@ -520,6 +618,7 @@ def run(ctx):
     ctx.set("determinism_selfcheck", digest(o1))
     ctx.assume("writers in the harness emit the formats the real programs emit (CP2K xyz; LAMMPS 'dump custom id type x y z vx vy vz id')")
     ctx.assume("a frame whose values are complete but whose final newline is not yet visible may or may not be returned (don't care); values must be exact either way")
+    ctx.assume("the closure abstracts the reader object to its position; this is checked against one live reader object polled at (c1, c2, c2, full, full) for every byte c1 and every line boundary c2 (live_reader_polls)")
     ctx.assume("completeness = every complete frame is delivered after at most two polls of the same bytes (the engines poll twice after the program exits)")
     try:
         from checks import c13_trr
